@@ -110,6 +110,23 @@ class SessionOver(BaseException):
 
 # ============================================================================ in-memory endpoints
 class WriteEnd:
+    # attributes of the real `os.fdopen(fd, "w")` text stream that the code under test may consult
+    encoding = "utf-8"
+    errors = "strict"
+    mode = "w"
+    newlines = None
+    line_buffering = False
+    name = "<c35 in-memory pipe to the daemon>"
+
+    def writable(self):
+        return True
+
+    def readable(self):
+        return False
+
+    def isatty(self):
+        return False
+
     def __init__(self, conn):
         self.c = conn
         self.h = conn.h
@@ -120,7 +137,7 @@ class WriteEnd:
     def write(self, s):
         if self.closed:
             raise ValueError("I/O operation on closed file.")
-        b = s.encode("utf8")
+        b = s.encode(self.encoding, self.errors)
         self.buf += b
         self.offset += len(b)
         return len(s)
@@ -152,6 +169,18 @@ class WriteEnd:
 
 
 class ReadEnd:
+    mode = "rb"
+    name = "<c35 in-memory pipe from the daemon>"
+
+    def readable(self):
+        return True
+
+    def writable(self):
+        return False
+
+    def isatty(self):
+        return False
+
     def __init__(self, conn):
         self.c = conn
         self.h = conn.h
@@ -442,7 +471,8 @@ class Conn:
             scripts=h._next_script, idle_signals=(h.case.get("idle_signals") or {}) if k == 0 else {},
             env_ok=lambda payload: BAD_ENV_KEY.encode() not in payload,
             eclass_ok=lambda path: not path.endswith("/bad.eclass") and os.path.exists(path),
-            handshake=True, cwd=h.files["cwd"], features=_features())
+            handshake=True, cwd=h.files["cwd"], features=_features(),
+            on_reply_input=lambda rec, line: h.on_daemon_reply_input(self, rec, line))
         self.daemon.execs = h.execs  # one list for the whole session
         self.daemon.exec_index = 100 * k
         self.w = WriteEnd(self)
@@ -452,6 +482,7 @@ class Conn:
         self.depth = 0
         self.op_start = 0
         self.misaligned = None  # description of the first misaligned consumption
+        self.misfed = None  # (execution record, line): see Session.on_daemon_reply_input
 
 
 class Session:
@@ -575,6 +606,13 @@ class Session:
         text = data.decode("utf8", "replace").rstrip("\n")
         if rec is not None:
             rec["kinds"].add(tag.kind)
+        if c.misfed is not None and tag.cmd.startswith("exec:") and tag.end > c.op_start and not c.misfed[0].get("reported"):
+            mrec, mline = c.misfed
+            mrec["reported"] = True
+            self.problem("desync:earlier-request-outcome-surfaced-in-later-one",
+                         f"the daemon was still waiting for the reply to a request of an earlier operation ({mrec['cmd']} "
+                         f"#{mrec['index']}), took {mline!r} written by this operation as that reply, and this operation "
+                         f"consumed the result {text!r}")
         if tag.kind in ("die", "notice"):
             if rec is not None:
                 rec["terminal"] = True
@@ -598,6 +636,16 @@ class Session:
             c.misaligned = c.misaligned or f"{text!r} consumed as an event of a later operation"
             if rec is not None:
                 rec["foreign_events"].append(text)
+
+    def on_daemon_reply_input(self, c, rec, line):
+        """running ebuild code in the daemon consumed `line` as the reply to its own inherit/bashrc/helper
+        request.  The execution was started by bytes ending at offset rec['tagend']; if that is not inside the
+        current operation, the daemon answers an *earlier* operation's request with what the python side wrote
+        for a later one (e.g. the pool's `alive` probe).  It becomes a violation when output of that misfed
+        execution is then consumed by the later operation (see on_line)"""
+        if rec.get("tagend", 0) <= c.op_start and c.misfed is None:
+            c.misfed = (rec, line)
+            self.classes.add("daemon-misread-request")
 
     def on_raw(self, c, data, tag):
         self.trace.append(("r", data))
@@ -642,10 +690,16 @@ def make_files(ctx):
     for n in ("rc0", "rc1"):
         with open(os.path.join(d, n), "w") as f:
             f.write(": # bashrc\n")
+    with open(os.path.join(d, "rc_fail"), "w") as f:
+        # the usual idiom; for any other package the file's last command returns 1
+        f.write("VF_RC_SEEN=1\n[[ ${CATEGORY} == no-such-category ]] && VF_RC_MATCH=1\n")
     os.makedirs(os.path.join(d, "T"))
     os.makedirs(os.path.join(d, "cwd"))
     return {"dir": d, "eclass": ecl, "T": os.path.join(d, "T"), "cwd": os.path.join(d, "cwd"),
-            "log": os.path.join(d, "T", "build.log"), "ebuild": os.path.join(d, "pkg-1.ebuild")}
+            "log": os.path.join(d, "T", "build.log"), "ebuild": os.path.join(d, "pkg-1.ebuild"),
+            # a path whose byte length differs from its character count (every size-prefixed message that
+            # embeds it has len(bytes) != len(str))
+            "ebuild_nonascii": os.path.join(d, "pk\u00e9\u2713-1.ebuild")}
 
 
 def make_objs(E, files, sess):
@@ -655,7 +709,7 @@ def make_objs(E, files, sess):
 
     class Pkg:
         category, PF, P, PN, PV, PR, PVR = "cat", "pkg-1", "pkg-1", "pkg", "1", "r0", "1"
-        ebuild = types.SimpleNamespace(path=files["ebuild"])
+        ebuild = types.SimpleNamespace(path=files["ebuild_nonascii" if sess.case.get("nonascii") else "ebuild"])
         eapi = E["eapi"]
 
         def _fetch_metadata(self, ebp=None, force_regen=None):
@@ -688,6 +742,8 @@ def run_case(ctx, case, record=True):
         files = make_files(ctx)
         run_case.files = {ctx.scratch: files}
     sess = Session(ctx, case, files)
+    if case.get("nonascii"):
+        sess.classes.add("nonascii-payload")
     with _Patched() as E:
         _Cur.h = sess
         objs = make_objs(E, files, sess)
@@ -766,6 +822,9 @@ def _judge(E, sess, label, rec):
     status = rec["status"]
     justified = (rec["terminal"] or rec["eof"] or rec.get("timeout") or "reply_fail" in rec["kinds"]
                  or rec["dead_before"] or any(not c.daemon.alive for c in sess.conns) or sess.misaligned is not None)
+    if status == "err" and isinstance(rec["value"], E["processor"].ProcessorError) \
+            and "unknown eclass: nx.eclass" in str(rec["value"]):
+        justified = True  # the python side itself refuses the request (eclass not in the cache)
     if any(x["outcome"] == "exit0" for x in new_execs):
         justified = True  # the ebuild left with `exit 0`: "phases succeeded" without keys / environment
     kind = label.split("#")[0]
@@ -812,6 +871,8 @@ def _interpret(E, sess, objs, case, expected):
         elif kind == "phase":
             _, phase, o, script = op
             env = {"T": files["T"], "PKGCORE_EMPTYDIR": files["cwd"], "PF": "pkg-1", "CATEGORY": "cat"}
+            if case.get("nonascii"):
+                env["VF_NOTE"] = "caf\u00e9 \u2713 gr\u00f6\u00dfe"
             if o.get("bad_env"):
                 env[BAD_ENV_KEY] = "1"
                 sess.classes.add("env-fail")
@@ -965,8 +1026,9 @@ def _txn_call(E, sess, objs, ebp, c):
     if k == "clear":
         return ebp.clear_preloaded_eclasses()
     if k == "paths":
-        ebp._ensure_metadata_paths(tuple(c[1]))
-        return ebp._metadata_paths == tuple(c[1])
+        paths = tuple(c[1]) + (("/opt/b\u00efn\u2713",) if sess.case.get("nonascii") else ())
+        ebp._ensure_metadata_paths(paths)
+        return ebp._metadata_paths == paths
     if k == "alive":
         return ebp.is_responsive
     if k == "caching":
@@ -1061,6 +1123,7 @@ def _dec_txn_call(c):
 def decode_case(data):
     c = _Cur(data)
     eager = bool(c.pick(2))
+    nonascii = c.pick(3) == 1
     idle = {}
     if c.pick(4) == 0:
         idle = {str(c.pick(9)): c.of(["INT", "TERM"])}
@@ -1079,7 +1142,10 @@ def decode_case(data):
             ops.append(["regen", c.pick(4) != 0, [_dec_script(c, _EV_DEPEND) for _ in range(1 + c.pick(3))]])
         else:
             ops.append(["txn", [_dec_txn_call(c) for _ in range(1 + c.pick(4))]])
-    return {"ops": ops, "idle_signals": idle, "eager": eager}
+    case = {"ops": ops, "idle_signals": idle, "eager": eager}
+    if nonascii:
+        case["nonascii"] = True
+    return case
 
 
 def st_case():
@@ -1364,6 +1430,16 @@ def _conf_ebuild(path, script):
         f.write("\n".join(body) + "\n")
 
 
+def _conf_env_events(payload):
+    """what the harness-written env chunks of the conformance driver do when evaluated"""
+    text = payload.decode("utf8", "replace")
+    if text.startswith("__source_bashrcs"):
+        return [["bashrcs"]]
+    if text.startswith("__internal_inherit "):
+        return [["inherit", text.split()[1].rstrip(";")]]
+    return []
+
+
 def _conf_programs(which, rnd):
     """fixed families + seeded choice; every program ends with something terminal for the daemon"""
     scripts = [
@@ -1378,6 +1454,10 @@ def _conf_programs(which, rnd):
         ["phase_loop", "setup", [["env_bytes", False]]],
         ["phase_loop", "compile install", [["env_file", False]]],
         ["phase_loop", "setup", [["env_file", True], ["bogus"]]],
+        ["phase_loop", "setup", [["bashrcs", ["rc0", "rc_fail", "rc1"]], ["alive"], ["shutdown"]]],
+        ["phase_loop", "install", [["bashrcs", ["rc_fail"]], ["inherit_chunk", "e2"], ["bashrcs", []], ["shutdown"]]],
+        ["phase_loop", "nofetch", [["env_bytes_nonascii"], ["alive"], ["shutdown"]]],
+        ["paths", "/opt/b\u00efn\u2713:/bin"],
         ["env", []], ["env", [["inherit", "e0"]]],
         ["keys", [["stderr", 2], ["exit", 3]]], ["alive"], ["env", [["stderr", 3], ["exit", 1]]],
     ]
@@ -1434,7 +1514,7 @@ def conformance(ctx, which):
         squeue = deque()
         model = M.Daemon(scripts=lambda cmd: squeue.popleft() if squeue else [], handshake=False, cwd=files["cwd"],
                          features=_features(), env_ok=lambda payload: BAD_ENV_KEY.encode() not in payload,
-                         eclass_ok=lambda path: not path.endswith("/bad.eclass") and os.path.exists(path))
+                         env_events=_conf_env_events, eclass_ok=lambda path: not path.endswith("/bad.eclass") and os.path.exists(path))
         trace = []
 
         def send(data):
@@ -1518,7 +1598,7 @@ def conformance(ctx, which):
                     send(f"preload_eclass {os.path.join(files['eclass'], n + '.eclass')}\n".encode())
                     sync(op)
             elif k == "paths":
-                send(f"set_metadata_path {len(op[1])}\n{op[1]}".encode())
+                send(f"set_metadata_path {len(op[1].encode())}\n{op[1]}".encode())  # the count is in bytes
                 sync(op)
             elif k in ("keys", "env"):
                 _conf_ebuild(files["ebuild"], op[1])
@@ -1545,6 +1625,22 @@ def conformance(ctx, which):
                     elif sub[0] == "env_bytes":
                         payload = "export VF_A=1 VF_B='x y'" if sub[1] else f"export {BAD_ENV_KEY}=1"
                         send(f"start_receiving_env bytes {len(payload)}\n{payload}".encode())
+                    elif sub[0] == "env_bytes_nonascii":
+                        payload = "export VF_A='caf\u00e9 \u2713' VF_B=x"
+                        send(f"start_receiving_env bytes {len(payload.encode())}\n{payload}".encode())
+                    elif sub[0] == "bashrcs":
+                        # the env chunk is bash code: let the phase shell run the real __source_bashrcs; the
+                        # whole conversation is sent at once so a missing ack shows as a *different* line,
+                        # not as silence
+                        payload = "__source_bashrcs; true"
+                        send(f"start_receiving_env bytes {len(payload)}\n{payload}".encode())
+                        sync(op + [sub, "request"])
+                        send("".join(f"path\n{os.path.join(files['dir'], n)}\n" for n in sub[1]).encode() + b"end_request\n")
+                    elif sub[0] == "inherit_chunk":
+                        payload = f"__internal_inherit {sub[1]}; true"
+                        send(f"start_receiving_env bytes {len(payload)}\n{payload}".encode())
+                        sync(op + [sub, "request"])
+                        send(f"path\n{os.path.join(files['eclass'], sub[1] + '.eclass')}\n".encode())
                     elif sub[0] == "env_file":
                         pth = os.path.join(files["T"], "ebd-env-transfer")
                         with open(pth, "w") as f:
@@ -1615,21 +1711,23 @@ def _resume_with_signal(model):
 
 # ---------------------------------------------------------------------------- plan / tasks
 def plan(tier, seed):
+    # cheap and high-yield first (the wall-clock guard stops generation, not the conformance runs, which
+    # spawn real daemons and are started last)
     tasks = [{"task": "literals"}]
-    for i in range(2 if tier == "quick" else 8):
-        tasks.append({"task": "conformance", "which": (seed + i) % 8 if tier == "quick" else i})
     nsh = 10 if tier == "quick" else 8
     for i in range(nsh):
         tasks.append({"task": "schedules", "salt": i, "examples": 500 if tier == "quick" else 12000})
     if tier == "thorough":
         for i in range(12):
             tasks.append({"task": "exhaustive", "part": i, "parts": 12})
+    for i in range(2 if tier == "quick" else 8):
+        tasks.append({"task": "conformance", "which": (seed + i) % 8 if tier == "quick" else i})
     return tasks
 
 
 def run_task(ctx, task, **kw):
     if task == "schedules":
-        core.hyp_run(ctx, st_case(), lambda c: run_case(ctx, c), kw["examples"], chunk=250, seed_salt=kw["salt"])
+        core.hyp_run(ctx, st_case(), lambda c: run_case(ctx, c), kw["examples"], chunk=100, seed_salt=kw["salt"])
     elif task == "exhaustive":
         n = 0
         for i, case in enumerate(ex_cases()):
@@ -1693,6 +1791,8 @@ def _smaller_variants(case):
 
     if case.get("idle_signals"):
         yield dict(case, idle_signals={})
+    if case.get("nonascii"):
+        yield {k: v for k, v in case.items() if k != "nonascii"}
     if not case.get("eager"):
         yield dict(case, eager=True)
     for i, op in enumerate(case["ops"]):
